@@ -494,18 +494,32 @@ func c19ServerName(p *Prog, r *Report) {
 			if c.Common().StaticCallee() != fn || idx < 0 {
 				return
 			}
-			n++
 			arg := c.Common().Args[idx]
-			okArg := false
-			for _, o := range origins(arg) {
+			okArg := true
+			// (the name may reach this call through the parameter of a constructor function: it is
+			// followed to the constructor's call sites, each of which counts as a caller)
+			leaves := originsInter(p, arg, 2)
+			for _, o := range leaves {
+				okLeaf := false
 				if cc, ok := o.(*ssa.Call); ok && cc.Call.StaticCallee() != nil && cc.Call.StaticCallee().Name() == "String" && strings.Contains(strings.ToLower(valDesc(cc.Call.Args[0])), "host") {
-					okArg = true // hostId.String()
+					okLeaf = true // hostId.String()
 				}
 				if ld, ok := o.(*ssa.UnOp); ok {
-					if ia, ok := ld.X.(*ssa.IndexAddr); ok && strings.HasSuffix(fieldPath(ia.X), "ContactPoints") {
-						okArg = true // ranged contact point
+					if ia, ok := ld.X.(*ssa.IndexAddr); ok {
+						for _, src := range followReturns(p, ia.X, 2) {
+							if strings.HasSuffix(fieldPath(src), "ContactPoints") {
+								okLeaf = true // ranged contact point
+							}
+						}
 					}
 				}
+				if !okLeaf {
+					okArg = false
+				}
+				n++
+			}
+			if len(leaves) == 0 {
+				okArg = false
 			}
 			r.check(okArg, rule, "caller:"+g.Name(), p.Pos(c.Pos()), "", "SNI is neither a metadata contact point nor the node's host id ("+valDesc(arg)+")")
 		})
@@ -671,6 +685,10 @@ func c19HandshakeFirst(p *Prog, r *Report) {
 	for _, tlsOn := range []bool{true, false} {
 		s := newSim(p)
 		var bad []string
+		// the dial and handshake phase may live in a private helper of Connect
+		s.Inline = func(f *ssa.Function) bool {
+			return f.Parent() == nil && recvNamed(f) == nil && pkgOfFn(f) == pkgOfFn(fn) && !f.Object().Exported() && onlyCalledFrom(p, f, fn, 2)
+		}
 		s.Model = func(sm *Sim, st *State, call ssa.CallInstruction, callee *ssa.Function) []*State {
 			cm := call.Common()
 			switch {
